@@ -191,6 +191,10 @@ class EvalRaise(Exception):
         self.catchable = catchable    # caught by `except Exception`
 
 
+class EvalUnknown(Exception):
+    """The evaluator declines to predict (semantics outside its model): the request is skipped, never judged."""
+
+
 class Inst:
     """A space instance in which formulas run: a static space or a node of a dynamic tree."""
     __slots__ = ("base", "parent", "args", "xrefs", "key", "root", "name", "children", "items", "dead")
@@ -319,39 +323,42 @@ class Evaluator:
     def _plain(self, v):
         return v
 
-    def _refval(self, r, definer, deriver, inst, name):
-        v = r.value
-        owner = ("ref", deriver.path(), name)
-        if isinstance(v, (rm.RSpace, rm.RCells)):
-            v2, judged = rm.rebind(v, definer, deriver, r.mode)
-            if isinstance(v2, tuple) and v2 and v2[0] == "cells-of":
-                return ("cellsobj", (v2[1], v2[2]), owner)
-            if isinstance(v2, rm.RSpace):
-                return ("space", self.sinst(v2), owner)
-            if isinstance(v2, rm.RCells):
-                return ("cellsobj", (v2.space, v2.name), owner)
-            return ("val", None, owner)
+    def _objkind(self, v, owner):
+        if isinstance(v, tuple) and v and v[0] == "cells-of":
+            return ("cellsobj", (v[1], v[2]), owner)
+        if isinstance(v, rm.RSpace):
+            return ("space", self.sinst(v), owner)
+        if isinstance(v, rm.RCells):
+            return ("cellsobj", (v.space, v.name), owner)
         return ("val", v, owner)
+
+    def _refval(self, r, definer, deriver, inst, name):
+        owner = ("ref", deriver.path(), name)
+        v2, is_rel, known = rm.rebind(r.value, definer, deriver, r.mode or "auto")
+        if not known:
+            raise EvalUnknown("object reference to a descendant of its definer, seen from a deriving space")
+        return self._objkind(v2, owner)
 
     def _dynrefval(self, r, definer, inst, name):
         """Reference of the dynamic base seen from a node of a dynamic tree."""
         base = inst.base
-        kind = self._refval(r, definer, base, inst, name)
         owner = ("ref", inst.path(), name)
-        v = r.value
-        if isinstance(v, (rm.RSpace, rm.RCells)) and r.mode != "absolute" and kind[0] in ("space", "cellsobj"):
-            # rebinding inside the dynamic tree: objects inside the root's base tree map to the tree
+        v2, is_rel, known = rm.rebind(r.value, definer, base, r.mode or "auto")
+        if not known:
+            raise EvalUnknown("object reference to a descendant of its definer, seen from a dynamic space")
+        kind = self._objkind(v2, owner)
+        if kind[0] in ("space", "cellsobj") and is_rel:
             root = inst.root
             rootbase = root.base
-            if kind[0] == "space":
-                tgt = kind[1].base
-                if tgt.is_in(rootbase):
-                    return ("space", self._dyn_corresponding(root, rootbase, tgt), owner)
-            else:
-                tspace, cname = kind[1]
-                if tspace.is_in(rootbase):
-                    return ("dyncells", (self._dyn_corresponding(root, rootbase, tspace), cname), owner)
-        return kind[:2] + (owner,)
+            tspace = kind[1].base if kind[0] == "space" else kind[1][0]
+            if tspace.is_in(rootbase):
+                dyn = self._dyn_corresponding(root, rootbase, tspace)
+                if kind[0] == "space":
+                    return ("space", dyn, owner)
+                return ("dyncells", (dyn, kind[1][1]), owner)
+            if (r.mode or "auto") == "relative":
+                raise EvalUnknown("relative reference leaving the dynamic tree")
+        return kind
 
     def _dyn_corresponding(self, root, rootbase, tgt):
         rel = []
@@ -575,6 +582,9 @@ class Evaluator:
         if k == "cmp":
             a = self.ev(inst, e[2], env)
             b = self.ev(inst, e[3], env)
+            for v in (a, b):
+                if isinstance(v, tuple) and v and v[0] in ("object", "fn"):
+                    raise EvalUnknown("comparison with an object")
             self._nums(a, b)
             return {"<": a < b, "<=": a <= b, "==": a == b, ">": a > b}[e[1]]
         if k == "if":
@@ -608,6 +618,9 @@ class Evaluator:
                 raise EvalRaise("TypeError", "operand")
 
     def binop(self, op, a, b):
+        for v in (a, b):
+            if isinstance(v, tuple) and v and v[0] in ("object", "fn"):
+                raise EvalUnknown("arithmetic with an object")
         if isinstance(a, list) or isinstance(b, list) or isinstance(a, tuple) or isinstance(b, tuple) \
                 or a is None or b is None or isinstance(a, str) or isinstance(b, str):
             raise EvalRaise("TypeError", "operand")
@@ -624,6 +637,11 @@ class Evaluator:
         raise ValueError(op)
 
     def apply_fn(self, fn, args):
+        for v in args:
+            if isinstance(v, tuple) and v and v[0] in ("object", "fn"):
+                raise EvalUnknown("object passed to a function")
+            if isinstance(v, list) and any(isinstance(x, tuple) for x in v):
+                raise EvalUnknown("object passed to a function")
         if fn[0] == "builtin":
             try:
                 return fn[1](*args)
@@ -727,6 +745,9 @@ class Evaluator:
         if r[0] == "cells":
             if not isinstance(tinst, Inst):
                 raise EvalRaise("AttributeError", name)
+            if not recv and spell == "idx":
+                # inside formulas sibling cells are bound as plain callables: subscription is a TypeError
+                raise EvalRaise("TypeError", "method not subscriptable")
             return self.call_cells(tinst, r[1], vals, kwargs)
         if r[0] == "cellsobj":
             sp, cname = r[1]
@@ -761,6 +782,10 @@ class Evaluator:
         except EvalRaise as ex:
             self.stack = []
             return ("exc", ex.cls)
+        except EvalUnknown:
+            self.stack = []
+            self.poisoned = True
+            return ("unknown", None)
 
     def resolve_inst(self, loc):
         """loc: list of segments: names and ["item", [values]]."""
